@@ -93,7 +93,12 @@ def rfd_from_content(
     """
     line_sep  = rewrite.detect_line_sep(content)
     old_lines = content.split(line_sep)
-    new_lines = rewrite_lines(patterns, new_vinfo, old_lines)
+    # NOTE: a byte order mark is not part of the first line (for a pattern that starts with "^")
+    bom = "\ufeff" if old_lines[0].startswith("\ufeff") else ""
+    old_lines[0] = old_lines[0][len(bom) :]
+    new_lines    = rewrite_lines(patterns, new_vinfo, old_lines)
+    old_lines[0] = bom + old_lines[0]
+    new_lines[0] = bom + new_lines[0]
     return rewrite.RewrittenFileData(path, line_sep, old_lines, new_lines)
 
 
